@@ -203,7 +203,7 @@ fn to_hdr(v: &V) -> O<TlsRecordHeader> {
     }
 }
 
-fn to_client_hello(a: &[V]) -> O<TlsClientHelloContents> {
+fn to_client_hello(a: &[V]) -> O<TlsClientHelloContents<'_>> {
     match a {
         [version, random, sid, ciphers, comp, ext] => Some(TlsClientHelloContents {
             version: TlsVersion(u16_(version)?),
@@ -217,7 +217,7 @@ fn to_client_hello(a: &[V]) -> O<TlsClientHelloContents> {
     }
 }
 
-fn to_cke(v: &V) -> O<TlsClientKeyExchangeContents> {
+fn to_cke(v: &V) -> O<TlsClientKeyExchangeContents<'_>> {
     match node(v)? {
         ("Unknown", [s]) => Some(TlsClientKeyExchangeContents::Unknown(bytes(s)?)),
         ("Dh", [s]) => Some(TlsClientKeyExchangeContents::Dh(bytes(s)?)),
@@ -228,7 +228,7 @@ fn to_cke(v: &V) -> O<TlsClientKeyExchangeContents> {
     }
 }
 
-pub fn to_hs(v: &V) -> O<TlsMessageHandshake> {
+pub fn to_hs(v: &V) -> O<TlsMessageHandshake<'_>> {
     use TlsMessageHandshake as H;
     Some(match node(v)? {
         ("HelloRequest", []) => H::HelloRequest,
@@ -293,7 +293,7 @@ pub fn to_hs(v: &V) -> O<TlsMessageHandshake> {
     })
 }
 
-pub fn to_msg(v: &V) -> O<TlsMessage> {
+pub fn to_msg(v: &V) -> O<TlsMessage<'_>> {
     Some(match node(v)? {
         ("Hs", [h]) => TlsMessage::Handshake(to_hs(h)?),
         ("CCS", []) => TlsMessage::ChangeCipherSpec,
@@ -313,7 +313,7 @@ pub fn to_msg(v: &V) -> O<TlsMessage> {
     })
 }
 
-pub fn to_plain(v: &V) -> O<TlsPlaintext> {
+pub fn to_plain(v: &V) -> O<TlsPlaintext<'_>> {
     match node(v)? {
         ("Plain", [hdr, msgs]) => Some(TlsPlaintext {
             hdr: to_hdr(hdr)?,
@@ -323,7 +323,7 @@ pub fn to_plain(v: &V) -> O<TlsPlaintext> {
     }
 }
 
-pub fn to_ext(v: &V) -> O<TlsExtension> {
+pub fn to_ext(v: &V) -> O<TlsExtension<'_>> {
     use TlsExtension as E;
     Some(match node(v)? {
         ("SNI", [l]) => E::SNI(list(l, |x| pair(x, |t| u8_(t).map(SNIType), bytes))?),
